@@ -22,6 +22,10 @@ import (
 	"verifharness/store"
 )
 
+// c11RawOverhead is the number of framing bytes the caller's encoder adds to
+// every raw block (0 with the stock codec); cases run one at a time.
+var c11RawOverhead int64
+
 // checkSizes is the C11 monitor: an independent walk of the DAG under root.
 func checkSizes(c *mon.Case, st *store.Store, root cid.Cid, returned uint64, what string) (links int, shared bool) {
 	w := walkerFor(st)
@@ -46,7 +50,7 @@ func checkSizes(c *mon.Case, st *store.Store, root cid.Cid, returned uint64, wha
 		var total int64
 		switch {
 		case !n.IsPB:
-			total = int64(len(n.Raw))
+			total = int64(len(n.Raw)) - c11RawOverhead
 		case len(n.Links) == 0:
 			if n.FS != nil {
 				total = int64(len(n.FS.Data))
@@ -220,6 +224,86 @@ func TestC11(t *testing.T) {
 			}
 			checkSizes(c, st, linkCid(l), sz, "plain directory with repeated entry names")
 			c.Sig("dupnames", true)
+		})
+	}
+	// a build that fails half-way (k-th write-open, commit or Write call), then more building in the same
+	// process: the sizes of what is built afterwards must be those of what is stored then
+	for i := 0; i < r.Pick(24, 240); i++ {
+		i := i
+		r.Case(fmt.Sprintf("afterfault/%d", i), map[string]any{"round": i}, func(c *mon.Case) {
+			rr := c.Rand()
+			content := gen.Content(rr, "rand", 40+rr.Intn(300))
+			chunker := fmt.Sprintf("size-%d", 8+rr.Intn(40))
+			bad := store.New()
+			kind := []string{"write", "write", "wopen", "commit"}[i%4]
+			k := 1 + i/4%12
+			switch kind {
+			case "write":
+				bad.FailWriteAt = k
+			case "wopen":
+				bad.FailWOpenAt = k
+			default:
+				bad.FailCommitAt = k
+			}
+			bls := bad.LinkSystem(false)
+			if i%3 == 0 {
+				bls = store.ChunkedEncoders(bls, 7+i%5)
+			}
+			var ferr error
+			c.Guard("failing build", func() {
+				withWidth(3, func() { _, _, ferr = builder.BuildUnixFSFile(bytes.NewReader(content), chunker, bls) })
+			})
+			if bad.InjectedHits > 0 {
+				c.Count("failed_builds_before", 1)
+				_ = ferr
+			}
+			// now the builds that are judged
+			st := store.New()
+			content2 := gen.Content(rr, "rand", 30+rr.Intn(300))
+			var l ipld.Link
+			var sz uint64
+			var err error
+			withWidth(3, func() { l, sz, err = builder.BuildUnixFSFile(bytes.NewReader(content2), chunker, st.LinkSystem(false)) })
+			if err != nil {
+				c.Violation("C11|build-error", "%v", err)
+				return
+			}
+			links, _ := checkSizes(c, st, linkCid(l), sz, fmt.Sprintf("file built after a build that failed at %s #%d", kind, k))
+			names := gen.Names(rr, gen.FamASCII, 5+rr.Intn(20))
+			entries, _, _ := childEntries(st, names)
+			dl, dsz, err := builder.BuildUnixFSDirectory(entries, st.LinkSystem(false))
+			if err == nil {
+				checkSizes(c, st, linkCid(dl), dsz, fmt.Sprintf("directory built after a build that failed at %s #%d", kind, k))
+			}
+			c.Sig(fmt.Sprintf("afterfault|%s|hit=%v", kind, bad.InjectedHits > 0), links >= 1 && bad.InjectedHits > 0)
+		})
+	}
+	// a caller whose encoder for raw blocks frames them (length and checksum header): the sizes are
+	// those of the encoded blocks, the content sizes those of the chunks
+	for i := 0; i < r.Pick(10, 80); i++ {
+		i := i
+		r.Case(fmt.Sprintf("framed/%d", i), map[string]any{"round": i}, func(c *mon.Case) {
+			rr := c.Rand()
+			hdr := 1 + rr.Intn(12)
+			content := gen.Content(rr, "rand", []int{1, 17, 40, 333, 1000}[i%5]+rr.Intn(50))
+			chunker := fmt.Sprintf("size-%d", 8+rr.Intn(60))
+			st := store.New()
+			var l ipld.Link
+			var sz uint64
+			var err error
+			w := 2 + i%3
+			withWidth(w, func() {
+				l, sz, err = builder.BuildUnixFSFile(bytes.NewReader(content), chunker, store.FramedRawEncoders(st.LinkSystem(false), hdr))
+			})
+			if err != nil {
+				c.Violation("C11|build-error", "%v", err)
+				return
+			}
+			c11RawOverhead = int64(hdr)
+			links, _ := checkSizes(c, st, linkCid(l), sz, fmt.Sprintf("file w%d %s %d bytes, raw blocks framed with a %d-byte header", w, chunker, len(content), hdr))
+			c11RawOverhead = 0
+			c.Count("builds_with_framing_encoders", 1)
+			c.Sig(fmt.Sprintf("framed|w%d|links%s", w, sizeClass(links)), links >= 1)
 		})
 	}
 	// big sharded directories and symlinks
